@@ -8,6 +8,7 @@ import (
 	"testing"
 
 	"github.com/ElrondNetwork/elrond-go/core"
+	"github.com/ElrondNetwork/elrond-go/data"
 	"github.com/ElrondNetwork/elrond-go/data/block"
 	"github.com/ElrondNetwork/elrond-go/data/blockchain"
 	"github.com/ElrondNetwork/elrond-go/data/state"
@@ -586,6 +587,138 @@ func TestVerifC19_ProcessBlock(t *testing.T) {
 			}
 			if !ok {
 				c.Violation("C19:processblock-accepted-mismatch", "ProcessBlock accepted a body that does not match the header (%s)\n%s", why, vc.describe(f))
+			}
+		})
+}
+
+// End-to-end variant for the metachain: the verdict is the one of metaProcessor.ProcessBlock, on ordinary AND on
+// start-of-epoch meta blocks (EpochStart.LastFinalizedHeaders non-empty: ProcessBlock leaves through
+// processEpochStartMetaBlock). The processor is built from the package's own createMockComponentHolders /
+// createMockMetaArguments (mock transaction coordinator, stubs for the epoch start components, accounts stub whose
+// root hash equals the header's) with the real marshalizer and hasher; the chain mock returns a drawn previous meta
+// block (ordinary or start-of-epoch, so that processIfFirstBlockAfterEpochStart runs as well) and the epoch start
+// trigger stub answers what the real trigger answers in that situation. A well-formed meta block without shard info
+// is accepted on both paths, and the only check that looks at the body's miniblock list is the correlation check.
+// ProcessBlock == nil  =>  header entries and body miniblocks are in bijection. Nothing is asserted about rejected
+// blocks (whatever the error).
+func TestVerifC19_MetaProcessBlock(t *testing.T) {
+	kit.Silence()
+	f := &verifC19Fixture{marsh: &marshal.GogoProtoMarshalizer{}, hasher: blake2b.NewBlake2b(),
+		shards: []uint32{0, 1, 2, core.MetachainShardId, core.MetachainShardId, core.AllShardId},
+		noNil:  true}
+	randSeed := []byte("rand seed")
+	rootHash := []byte("rootHash")
+	prevHash := []byte("prev meta hash")
+
+	var prevHdr *block.MetaBlock // the chain's current block, drawn per case
+	var triggerEpoch uint32
+	var triggerIsStart bool
+	var triggerStartRound uint64
+
+	coreComponents, dataComponents, bootstrapComponents, statusComponents := createMockComponentHolders()
+	coreComponents.IntMarsh = f.marsh
+	coreComponents.Hash = f.hasher
+	dataComponents.BlockChain = &mock.BlockChainMock{
+		GetCurrentBlockHeaderCalled:     func() data.HeaderHandler { return prevHdr },
+		GetCurrentBlockHeaderHashCalled: func() []byte { return prevHash },
+		GetGenesisHeaderCalled:          func() data.HeaderHandler { return &block.Header{Nonce: 0} },
+	}
+	arguments := createMockMetaArguments(coreComponents, dataComponents, bootstrapComponents, statusComponents)
+	arguments.AccountsDB[state.UserAccountsState] = &testscommon.AccountsStub{
+		JournalLenCalled:       func() int { return 0 },
+		RevertToSnapshotCalled: func(_ int) error { return nil },
+		RootHashCalled:         func() ([]byte, error) { return rootHash, nil },
+	}
+	arguments.EpochStartTrigger = &mock.EpochStartTriggerStub{
+		EpochCalled:           func() uint32 { return triggerEpoch },
+		IsEpochStartCalled:    func() bool { return triggerIsStart },
+		EpochStartRoundCalled: func() uint64 { return triggerStartRound },
+	}
+	mp, err := blproc.NewMetaProcessor(arguments)
+	if err != nil {
+		t.Fatalf("fixture: %v", err)
+	}
+
+	kit.Run(t, "C19", kit.Budget{Quick: 4000, Thorough: 40000},
+		"same pair generator with sender/receiver from {0,1,2,metachain (2/6),all-shards}; verdict of metaProcessor.ProcessBlock on a meta block (nonce = previous+1, later round, matching previous hash/rand seed/root hash/fees, no shard info) carrying the entries; half of the blocks are start-of-epoch blocks (1-3 EpochStart.LastFinalizedHeaders, epoch = previous+1, trigger in the epoch-start state), a quarter follow a start-of-epoch block; non-trivial = at least one mutation and equal lengths; distinct by (kind of block, written-out pair)",
+		func(rt *rapid.T, c *kit.Case) {
+			vc := f.genCase(rt)
+			ok, why, err := f.matches(vc.entries, vc.body)
+			if err != nil {
+				rt.Fatalf("fixture: oracle: %v", err)
+			}
+			startOfEpoch := rapid.Bool().Draw(rt, "startOfEpoch")
+			prevIsStart := rapid.IntRange(0, 3).Draw(rt, "prevIsStartOfEpoch") == 3
+			prevEpoch := rapid.Uint32Range(0, 3).Draw(rt, "prevEpoch")
+			prevNonce := rapid.Uint64Range(0, 50).Draw(rt, "prevNonce")
+			prevRound := prevNonce + rapid.Uint64Range(0, 5).Draw(rt, "prevRoundGap")
+			round := prevRound + rapid.Uint64Range(1, 3).Draw(rt, "roundGap")
+
+			prevHdr = &block.MetaBlock{Nonce: prevNonce, Round: prevRound, Epoch: prevEpoch, RandSeed: randSeed,
+				AccumulatedFeesInEpoch: big.NewInt(int64(rapid.IntRange(0, 9).Draw(rt, "prevFeesInEpoch"))), DevFeesInEpoch: big.NewInt(0)}
+			if prevIsStart {
+				prevHdr.EpochStart.LastFinalizedHeaders = []block.EpochStartShardData{{ShardID: 0}}
+			}
+			feesInEpoch := big.NewInt(0)
+			if !prevIsStart {
+				feesInEpoch.Set(prevHdr.AccumulatedFeesInEpoch)
+			}
+			txCount := uint32(0)
+			for _, e := range vc.entries {
+				txCount += e.TxCount
+			}
+			hdr := &block.MetaBlock{
+				Nonce: prevNonce + 1, Round: round, Epoch: prevEpoch, PrevHash: prevHash, PrevRandSeed: randSeed,
+				RandSeed: []byte("next rand seed"), Signature: []byte("signature"), PubKeysBitmap: []byte("00110"),
+				RootHash: rootHash, MiniBlockHeaders: vc.entries, TxCount: txCount,
+				AccumulatedFees: big.NewInt(0), DeveloperFees: big.NewInt(0),
+				AccumulatedFeesInEpoch: feesInEpoch, DevFeesInEpoch: big.NewInt(0),
+			}
+			kind := "ordinary"
+			triggerEpoch, triggerIsStart, triggerStartRound = prevEpoch, false, 0
+			if startOfEpoch {
+				kind = "start-of-epoch"
+				hdr.Epoch = prevEpoch + 1
+				nFin := rapid.IntRange(1, 3).Draw(rt, "nLastFinalized")
+				for i := 0; i < nFin; i++ {
+					hdr.EpochStart.LastFinalizedHeaders = append(hdr.EpochStart.LastFinalizedHeaders,
+						block.EpochStartShardData{ShardID: uint32(i), Nonce: prevNonce, Round: prevRound, HeaderHash: []byte("shard hdr"), RootHash: rootHash})
+				}
+				hdr.EpochStart.Economics = block.Economics{TotalSupply: big.NewInt(0), TotalToDistribute: big.NewInt(0),
+					TotalNewlyMinted: big.NewInt(0), RewardsPerBlock: big.NewInt(0), NodePrice: big.NewInt(0),
+					RewardsForProtocolSustainability: big.NewInt(0)}
+				// the real trigger has switched to the epoch-start state in the round of this block or before
+				triggerEpoch, triggerIsStart, triggerStartRound = prevEpoch+1, true, round-rapid.Uint64Range(0, 1).Draw(rt, "triggerRoundBefore")
+			}
+			if !hdr.IsStartOfEpochBlock() == startOfEpoch {
+				rt.Fatalf("fixture: IsStartOfEpochBlock()=%v for a %s block", hdr.IsStartOfEpochBlock(), kind)
+			}
+			c.Class("kind:" + kind)
+			if prevIsStart {
+				c.Class("previous-is-start-of-epoch")
+			}
+			if len(vc.mutations) > 0 && len(vc.entries) == len(vc.body.MiniBlocks) {
+				c.NonTrivial(kind + " " + vc.describe(f))
+				if !ok {
+					c.Class("nontrivial-mismatch:" + kind)
+				}
+			}
+			var verdict error
+			c.NoPanic("C19:metaprocessblock:panic", func() { verdict = mp.ProcessBlock(hdr, vc.body, haveTime) })
+			if verdict != nil {
+				c.Class("rejected:" + kind)
+				if ok {
+					if len(vc.mutations) == 0 {
+						// without this the acceptance of meta blocks (and with it the whole test) would be vacuous
+						rt.Fatalf("fixture: metaProcessor.ProcessBlock rejects a well-formed %s meta block with an unmutated header/body pair (%v): %s", kind, verdict, vc.describe(f))
+					}
+					c.Class("matching-pair-rejected:" + verdict.Error())
+				}
+				return
+			}
+			c.Class("accepted:" + kind)
+			if !ok {
+				c.Violation("C19:metaprocessblock-accepted-mismatch", "metaProcessor.ProcessBlock accepted a %s meta block (previous block start-of-epoch: %v) whose body does not match the header (%s)\n%s", kind, prevIsStart, why, vc.describe(f))
 			}
 		})
 }
